@@ -39,6 +39,19 @@ Proof.
   intros k ks. induction ks as [|a r IH]; cbn [In xsizes]; [tauto|]. intros [->|H]; [lia|]. apply IH in H. lia.
 Qed.
 
+Fixpoint xheights (ks : list xtree) : nat :=
+  match ks with [] => O | k :: r => Nat.max (xheight k) (xheights r) end.
+Lemma xheight_unfold : forall tag attrs text tail kids,
+  xheight (XNode tag attrs text tail kids) = S (xheights kids).
+Proof. intros. reflexivity. Qed.
+Lemma xheights_in : forall k ks, In k ks -> (xheight k <= xheights ks)%nat.
+Proof.
+  intros k ks. induction ks as [|a r IH]; cbn [In xheights]; [tauto|]. intros [->|H]; [lia|]. apply IH in H. lia.
+Qed.
+Lemma xheights_map : forall (f : xtree -> xtree) ks, Forall (fun k => xheight (f k) = xheight k) ks ->
+  xheights (map f ks) = xheights ks.
+Proof. intros f ks F. induction F as [|k r Hk _ IH]; cbn [map xheights]; [reflexivity | rewrite Hk, IH; reflexivity]. Qed.
+
 Lemma ornone_otxt_idem : forall x, otxt (ornone (otxt x)) = otxt x.
 Proof. intros [[|c l]|]; reflexivity. Qed.
 Lemma otxt_ornone : forall l, otxt (ornone l) = l.
@@ -66,6 +79,11 @@ Proof.
   induction t as [tag attrs text tail kids IH] using xtree_ind2. cbn [tnorm]. rewrite !xsize_unfold.
   f_equal. apply xsizes_map. exact IH.
 Qed.
+Lemma xheight_tnorm : forall t, xheight (tnorm t) = xheight t.
+Proof.
+  induction t as [tag attrs text tail kids IH] using xtree_ind2. cbn [tnorm]. rewrite !xheight_unfold.
+  f_equal. apply xheights_map. exact IH.
+Qed.
 Lemma npua_tnorm : forall t, npua (tnorm t) = npua t.
 Proof.
   induction t as [tag attrs text tail kids IH] using xtree_ind2. cbn [tnorm npua].
@@ -79,6 +97,8 @@ Proof. destruct t; reflexivity. Qed.
 
 Lemma equiv_size : forall a b, tnorm a = tnorm b -> xsize a = xsize b.
 Proof. intros a b H. rewrite <- (xsize_tnorm a), <- (xsize_tnorm b), H. reflexivity. Qed.
+Lemma equiv_height : forall a b, tnorm a = tnorm b -> xheight a = xheight b.
+Proof. intros a b H. rewrite <- (xheight_tnorm a), <- (xheight_tnorm b), H. reflexivity. Qed.
 Lemma equiv_npua : forall a b, tnorm a = tnorm b -> npua a = npua b.
 Proof. intros a b H. rewrite <- (npua_tnorm a), <- (npua_tnorm b), H. reflexivity. Qed.
 Lemma equiv_tail : forall a b, tnorm a = tnorm b -> xtail a = xtail b.
@@ -358,16 +378,16 @@ Lemma Forall2_same : forall (A : Type) (R : A -> A -> Prop) l, Forall (fun x => 
 Proof. intros A R l H. induction H; constructor; auto. Qed.
 
 (* a PUA-free tree is left alone *)
-Lemma undo_id : forall t, npua t = true -> forall f hp, (xsize t <= f)%nat -> undo_element (S f) F hp t = Ok (t, []).
+Lemma undo_id : forall t, npua t = true -> forall f hp, (xheight t <= f)%nat -> undo_element (S f) F hp t = Ok (t, []).
 Proof.
   induction t as [tag attrs text tail kids IH] using xtree_ind2. intros NP f hp LF.
   cbn [npua] in NP. apply andb_true_iff in NP. destruct NP as [NP N3]. apply andb_true_iff in NP. destruct NP as [N1 N2].
-  rewrite xsize_unfold in LF. destruct f as [|f]; [lia|].
+  rewrite xheight_unfold in LF. destruct f as [|f]; [lia|].
   rewrite undo_element_S. rewrite (u_text_plain _ _ _ N1). cbn [bind]. unfold u_rest.
   assert (FA : Forall2 (fun c c2 => undo_element (S f) F true c = Ok (c2, [])) kids kids).
   { apply Forall2_same. rewrite Forall_forall in IH. apply Forall_forall. intros k Hk. apply IH; [exact Hk| |].
     - rewrite forallb_forall in N3. apply N3. exact Hk.
-    - pose proof (xsizes_in _ _ Hk). lia. }
+    - pose proof (xheights_in _ _ Hk). lia. }
   rewrite (mapM_kids_of _ _ _ FA). cbn [bind]. rewrite concat_singletons. apply u_tail_plain. exact N2.
 Qed.
 
@@ -431,15 +451,15 @@ Qed.
 (* ------------------------------------------------------- the main induction *)
 Definition partA (t : xtree) : Prop :=
   forall x f hp, forallb (fcov fmt (t2p F)) (xkids t) = true ->
-    otxt x = otxt (xtext t) ++ enc_kids fmt (t2p F) (xkids t) -> (xsize t <= f)%nat ->
+    otxt x = otxt (xtext t) ++ enc_kids fmt (t2p F) (xkids t) -> (xheight t <= f)%nat ->
     exists t2, undo_element (S f) F hp (XNode (xtag t) (xattrs t) x (xtail t) []) = Ok (t2, []) /\ tnorm t2 = tnorm t.
 Definition partB (t : xtree) : Prop :=
-  forall f hp, dcov tt fmt (t2p F) false t = true -> (xsize t <= f)%nat ->
+  forall f hp, dcov tt fmt (t2p F) false t = true -> (xheight t <= f)%nat ->
     exists t2, undo_element (S f) F hp (dlive tt fmt (t2p F) t) = Ok (t2, []) /\ tnorm t2 = tnorm t.
 
 Lemma kid_ok_of : forall n',
   (forall t, (xsize t <= n')%nat -> npua t = true -> partA t /\ partB t) ->
-  forall f k, (xsize k <= n')%nat -> (xsize k <= f)%nat -> npua k = true -> fcov fmt (t2p F) k = true ->
+  forall f k, (xsize k <= n')%nat -> (xheight k <= f)%nat -> npua k = true -> fcov fmt (t2p F) k = true ->
     kid_ok (fun el => bind (undo_element (S f) F false el) (fun r => Ok (fst r))) k.
 Proof.
   intros n' IH f [tag attrs text tail kids] LN LF NP FC.
@@ -447,6 +467,7 @@ Proof.
   unfold kid_ok. cbv zeta. split; [exact N2|]. cbn [fcov] in FC. cbv zeta in FC.
   set (k0 := XNode tag attrs text [] kids) in *.
   assert (SZ : xsize k0 = xsize (XNode tag attrs text tail kids)) by reflexivity.
+  assert (HZ : xheight k0 = xheight (XNode tag attrs text tail kids)) by reflexivity.
   assert (NP0 : npua k0 = true) by (cbn [npua k0]; rewrite N1, N3; reflexivity).
   destruct (mem tag fmt) eqn:MF.
   - destruct (t2p_get (t2p F) (knorm k0, TClose, None)) as [phc|] eqn:L1; [|discriminate].
@@ -464,6 +485,7 @@ Proof.
     pose proof (knorm_equiv _ _ KN) as EQ.
     assert (NPc : npua c0 = true) by (rewrite (equiv_npua _ _ EQ); exact NP0).
     assert (SZc : xsize c0 = xsize k0) by (apply equiv_size; exact EQ).
+    assert (HZc : xheight c0 = xheight k0) by (apply equiv_height; exact EQ).
     assert (TLc : xtail c0 = []) by (rewrite (equiv_tail _ _ EQ); reflexivity).
     destruct CASES as [->|[-> DC]].
     + exists c0. rewrite (undo_id c0 NPc f false ltac:(lia)). cbn [bind fst]. auto.
@@ -490,7 +512,7 @@ Proof.
   apply andb_true_iff in NP'. destruct NP' as [N1 N2].
   assert (KSZ : forall k, In k kids -> (xsize k <= n')%nat) by (intros k Hk; pose proof (xsizes_in _ _ Hk); lia).
   assert (PA : partA (XNode tag attrs text tail kids)).
-  { unfold partA. cbn [xkids xtext xtag xattrs xtail]. intros x f hp FC OX LF. rewrite xsize_unfold in LF.
+  { unfold partA. cbn [xkids xtext xtag xattrs xtail]. intros x f hp FC OX LF. rewrite xheight_unfold in LF.
     destruct f as [|f]; [lia|]. rewrite undo_element_S. unfold u_text.
     assert (PP : forall p, push_plain p [] [] = (p, [])) by (intros [|? ?]; reflexivity).
     destruct (otxt x) as [|c r] eqn:EX.
@@ -500,7 +522,7 @@ Proof.
       rewrite app_nil_r in OX. rewrite <- OX. reflexivity.
     - assert (KOK : Forall (kid_ok (fun el => bind (undo_element (S f) F false el) (fun r => Ok (fst r)))) kids).
       { apply Forall_forall. intros k Hk. rewrite forallb_forall in N3, FC.
-        apply (kid_ok_of n' IH f k (KSZ k Hk)); auto. pose proof (xsizes_in _ _ Hk). lia. }
+        apply (kid_ok_of n' IH f k (KSZ k Hk)); auto. pose proof (xheights_in _ _ Hk). lia. }
       unfold undo_string. rewrite OX.
       destruct (parse_kids _ kids KOK (otxt text) [] [] (S (length (split_string F (otxt text ++ enc_kids fmt (t2p F) kids)))) N1
                   ltac:(lia)) as (ks2 & R & FA).
@@ -517,27 +539,27 @@ Proof.
         { apply Forall2_same. apply Forall_forall. intros c2 Hc. destruct (Forall2_in_l _ _ _ _ _ _ FA Hc) as (k1 & Hk & E).
           apply undo_id.
           - rewrite (equiv_npua _ _ E). rewrite forallb_forall in N3. apply N3. exact Hk.
-          - rewrite (equiv_size _ _ E). pose proof (xsizes_in _ _ Hk). lia. }
+          - rewrite (equiv_height _ _ E). pose proof (xheights_in _ _ Hk). lia. }
         rewrite (u_cont_of _ _ _ FA2). cbn [bind]. rewrite app_nil_r. unfold u_rest.
         rewrite (mapM_kids_of _ _ _ FA2). cbn [bind]. rewrite concat_singletons.
         rewrite (u_tail_plain _ _ _ _ _ _ _ N2). eexists. split; [reflexivity|].
         cbn [tnorm]. rewrite otxt_ornone. f_equal. apply Forall2_map_eq. exact FA. }
   split; [exact PA|].
-  unfold partB. intros f hp DC LF. rewrite xsize_unfold in LF. cbn [dlive]. cbn [dcov] in DC. cbv zeta in DC.
+  unfold partB. intros f hp DC LF. rewrite xheight_unfold in LF. cbn [dlive]. cbn [dcov] in DC. cbv zeta in DC.
   destruct (mem tag tt).
   - destruct kids as [|k ks].
     + apply (fun H => ex_intro _ (XNode tag attrs text tail []) (conj H eq_refl)).
-      apply undo_id; [exact NP | rewrite xsize_unfold; exact LF].
+      apply undo_id; [exact NP | rewrite xheight_unfold; exact LF].
     + apply andb_true_iff in DC. destruct DC as [FC _].
       apply (PA (Some (otxt text ++ concat (map (enc fmt (t2p F)) (k :: ks)))) f hp FC eq_refl).
-      rewrite xsize_unfold. exact LF.
+      rewrite xheight_unfold. exact LF.
   - destruct f as [|f]; [lia|]. rewrite undo_element_S. rewrite (u_text_plain _ _ _ N1). cbn [bind]. unfold u_rest.
     assert (KS : exists ks2, Forall2 (fun c c2 => undo_element (S f) F true c = Ok (c2, [])) (map (dlive tt fmt (t2p F)) kids) ks2
                              /\ map tnorm ks2 = map tnorm kids).
     { clear PA NP LE. induction kids as [|k ks IHk].
       - exists []. split; [constructor | reflexivity].
       - cbn [forallb] in N3, DC. apply andb_true_iff in N3, DC. destruct N3 as [Nk Nks]. destruct DC as [Dk Dks].
-        cbn [xsizes] in LF.
+        cbn [xheights] in LF.
         destruct IHk as (ks2 & FA & EM); auto; [intros k1 H1; apply KSZ; right; exact H1 | lia|].
         destruct (IH k (KSZ k (or_introl eq_refl)) Nk) as [_ PB].
         destruct (PB f true Dk ltac:(lia)) as (k2 & U & E).
